@@ -264,6 +264,12 @@ def check_case(case):
     try:
         a = _one_call(samp, case, case["prior"])
         # a request that never returns is not repeated: same arguments, same deterministic loop
+        if a["kind"] == "mask" and isinstance(a["mask"], np.ndarray):
+            # the caller owns the returned mask and may edit it in place; the second call must not see that
+            returned = a["mask"]
+            a["mask"] = returned.copy()
+            if returned.flags.writeable:
+                returned[...] = ~returned.astype(bool) if returned.dtype.kind != "c" else 1 - returned
         b = _one_call(samp, case, case["prior2"]) if a["kind"] not in ("hang", "inconclusive") else None
     finally:
         np.random.set_state(saved)
